@@ -68,7 +68,9 @@ func genDeliveryCase(t *rapid.T, secure bool) DeliveryCase {
 	ts := rapid.Uint32().Draw(t, "ts0")
 	for i := 0; i < na; i++ {
 		a := DAction{}
-		switch rapid.IntRange(0, 22).Draw(t, "akind") {
+		switch rapid.IntRange(0, 23).Draw(t, "akind") {
+		case 23:
+			a.Kind = "pause-refused"
 		case 22:
 			// keep-alive requests of a playing reader while a burst is written to it
 			a.Kind = "req-burst"
@@ -147,6 +149,9 @@ func deliveryLabels(c DeliveryCase, st *dStats) []string {
 	}
 	if st.Abrupt > 0 {
 		l = append(l, "paused-or-left-during-burst")
+	}
+	if st.PauseRefused > 0 {
+		l = append(l, "pause-refused-by-the-application")
 	}
 	if st.ReqsDuringBurst > 0 {
 		l = append(l, "requests-answered-during-burst")
